@@ -10,7 +10,7 @@ from .. import msk
 KINDS = [
     "naive-last", "naive-mean", "naive-drift", "naive-seasonal-last", "naive-seasonal-mean", "poly", "poly-nointercept", "sm-adapter",
     "reduce-direct", "reduce-recursive", "reduce-multioutput", "reduce-dirrec",
-    "ensemble", "pipeline", "pipeline-deseason", "stacking", "multiplexer", "gridsearch",
+    "ensemble", "ensemble-window-trend", "pipeline", "pipeline-deseason", "stacking", "multiplexer", "gridsearch",
 ]
 REQUIRED_FH = ("reduce-direct", "reduce-multioutput", "reduce-dirrec", "stacking")
 SHIFTABLE = ("pipeline-deseason", "poly-nointercept", "naive-last", "naive-mean", "naive-drift", "naive-seasonal-last", "naive-seasonal-mean", "poly", "reduce-direct", "reduce-recursive", "reduce-multioutput", "reduce-dirrec")
@@ -50,7 +50,7 @@ class C03(Harness):
                 return types.SimpleNamespace(seasonal=W.pd.Series([sig[i % len(sig)] for i in range(len(z))], index=z.index))
 
             return {"statsmodels.tsa.seasonal": types.SimpleNamespace(seasonal_decompose=seasonal_decompose)}
-        if cell["kind"] in ("poly", "poly-nointercept") and kind == "sym":
+        if cell["kind"] in ("poly", "poly-nointercept", "ensemble-window-trend") and kind == "sym":
             return {
                 "sklearn.linear_model": types.SimpleNamespace(LinearRegression=msk.LinearRegression),
                 "sklearn.pipeline": types.SimpleNamespace(make_pipeline=msk.make_pipeline),
@@ -169,6 +169,10 @@ class C03(Harness):
             return red.make_reduction(Reg(), strategy=k.split("-")[1], window_length=inp["wl"])
         if k == "ensemble":
             return W.load("sktime.forecasting.compose._ensemble").EnsembleForecaster([("a", Member(p=1)), ("b", NF("last"))])
+        if k == "ensemble-window-trend":
+            # a window forecaster and a trend forecaster share the one horizon object the ensemble was given
+            PTF = W.load("sktime.forecasting.trend").PolynomialTrendForecaster
+            return W.load("sktime.forecasting.compose._ensemble").EnsembleForecaster([("w", NF("last")), ("t", PTF(degree=1))])
         if k == "pipeline-deseason":
             self.__dict__.setdefault("_hold", {})[W.kind] = {"W": W, "sigma": inp["sigma"]}
             DES = W.load("sktime.transformations.series.detrend._deseasonalize").Deseasonalizer
@@ -206,6 +210,8 @@ class C03(Harness):
         mk = (lambda v: pd.Index(v)) if inp.get("as_unsorted_index") else (lambda v: np.array(v))
         if inp["absolute"]:
             fh = FH(mk([final_cut + h for h in steps]), is_relative=False)
+        elif k == "ensemble-window-trend":
+            fh = FH(mk(steps))  # one horizon *object*, shared by the members and resolved again after the cutoff moves
         else:
             fh = mk(steps)
         out = {}
@@ -214,6 +220,8 @@ class C03(Harness):
         else:
             f.fit(y)
         out["cutoff_fit"] = S(f.cutoff)
+        if nb and k == "ensemble-window-trend" and not inp["absolute"]:
+            f.predict() if inp["fh_in_fit"] else f.predict(fh)  # a first forecast from the old cutoff
         if nb:
             f.update(ser(inp["u"], ustart), update_params=inp.get("update_params", True))
             out["cutoff_upd"] = S(f.cutoff)
